@@ -325,7 +325,8 @@ impl Gen {
                     3 => mq.next.checked_sub(1),
                     _ => {
                         if mq.next >= 2 {
-                            Some(rng.below(mq.next - 1))
+                            // far in the past (small numbers) as well as anywhere in the past
+                            Some(if rng.chance(1, 2) { rng.below((mq.next - 1).min(1000)) } else { rng.below(mq.next - 1) })
                         } else {
                             None
                         }
@@ -454,7 +455,7 @@ impl Gen {
                     1 if any_missing < nq => Op::Delete { q: any_missing },
                     2 if any_missing < nq => Op::Truncate { q: any_missing, upto: rng.below(100) },
                     3 if any_missing < nq => Op::Append { q: any_missing, pos: None, lens: vec![5], uid },
-                    4 if mq.next >= 2 => Op::Append { q, pos: Some(rng.below(mq.next - 1)), lens: vec![7, 9], uid },
+                    4 if mq.next >= 2 => Op::Append { q, pos: Some(if rng.chance(1, 2) { rng.below((mq.next - 1).min(1000)) } else { rng.below(mq.next - 1) }), lens: vec![7, 9], uid },
                     5 if mq.next >= 1 => Op::Append { q, pos: Some(mq.next - 1), lens: vec![33, 2, 1000], uid },
                     6 => Op::Append { q, pos: None, lens: vec![], uid },
                     7 => Op::Append { q, pos: Some(mq.next), lens: vec![], uid },
